@@ -744,7 +744,13 @@ class Run:
             acts = "; ".join("%s(%s)" % (a, ",".join(showv(x) for x in args)) for a, args in sub.actions)
             return "|..|{%s => return %s}" % (acts, showv(r.v))
         except (NeedChoice, Unsupported, _Infeasible, _Break, _Continue, _LoopBack, KeyError, IndexError, TypeError):
-            return "|..|" + show_env(e["body"], cenv)
+            from .render import render
+
+            subst = {}
+            for n, v in c[2].items():
+                if not (isinstance(v, tuple) and v and v[0] in ("closure", "obj")):
+                    subst[n] = showv(v)
+            return "|..|" + render(e["body"], e["params"], subst, show, "a")
 
     def apply_closure(self, c, args):
         e, cenv = c[1], dict(c[2])
